@@ -326,6 +326,91 @@ class C03(WithEL):
         scn["cfg"]["delay"] = r.choice([0, 1024, 1024, 2048])
         return scn
 
+    # -- the Lean port of heapq.py against CPython's heapq (validates the transcription the
+    #    refinement theorem C03_heapq_refines_sorted_queue is about; both orders, tie-heavy) ----------
+    def generate(self, seed, tier):
+        n = 150 if tier == "quick" else 5000
+        for i in range(n):
+            r = random.Random(stable_hash("heapq", seed, i))
+            ops, k = [], 0
+            for _ in range(r.randint(4, 60)):
+                if r.random() < 0.6:
+                    ops.append(["push", r.choice([1, 1, 1, 2, 3]), k])
+                    k += 1
+                else:
+                    ops.append(["pop"])
+            ops += [["pop"]] * (k // 2)
+            yield {"kind": "heapq", "order": r.choice(["ts", "key"]), "ops": ops, "label": f"heapq/{seed}/{i}"}
+        yield from super().generate(seed, tier)
+
+    def run_impl(self, case):
+        if case.get("kind") != "heapq":
+            return super().run_impl(case)
+        import heapq
+
+        class Item:
+            __slots__ = ("ts", "id")
+
+            def __init__(self, ts, ident):
+                self.ts, self.id = ts, ident
+
+            if case["order"] == "ts":
+                def __lt__(self, other):
+                    return self.ts < other.ts
+            else:
+                def __lt__(self, other):
+                    return (self.ts, self.id) < (other.ts, other.id)
+        heap, out = [], []
+        for op in case["ops"]:
+            if op[0] == "push":
+                heapq.heappush(heap, Item(op[1], op[2]))
+                out.append("ok")
+            else:
+                out.append(heapq.heappop(heap).id if heap else None)
+        return {"results": out, "layout": [x.id for x in heap], "crash": None}
+
+    def model_input(self, case, impl):
+        if case.get("kind") == "heapq":
+            return {"kind": "heapq", "order": case["order"], "ops": case["ops"]}
+        return super().model_input(case, impl)
+
+    def compare(self, case, impl, model):
+        if case.get("kind") == "heapq":
+            a, b = [impl["results"], impl["layout"]], [model["results"], model["layout"]]
+            return [] if a == b else ["heapq port differs from CPython heapq: " + first_diff(a, b)]
+        return super().compare(case, impl, model)
+
+    def oracle(self, case, impl):
+        if case.get("kind") == "heapq":
+            return []
+        return super().oracle(case, impl)
+
+    def nontrivial(self, case, impl):
+        if case.get("kind") == "heapq":
+            return len(case["ops"]) >= 12
+        return super().nontrivial(case, impl)
+
+    def key(self, case, impl):
+        if case.get("kind") == "heapq":
+            return str(case["ops"]) + case["order"]
+        return super().key(case, impl)
+
+    def sample(self, case, impl):
+        if case.get("kind") == "heapq":
+            return {"label": case["label"], "order": case["order"], "ops": case["ops"][:20], "results": impl["results"][:20]}
+        return super().sample(case, impl)
+
+    def stats(self, case, impl, acc):
+        if case.get("kind") == "heapq":
+            acc["heapq_port_histories"] = acc.get("heapq_port_histories", 0) + 1
+            return
+        super().stats(case, impl, acc)
+
+    def shrink(self, case, still_fails):
+        if case.get("kind") == "heapq":
+            return case
+        return super().shrink(case, still_fails)
+
     def obs(self, case, res):
         return [cb_tuple(c) for c in parse(res["trace"]) if c["kind"] in ("timer", "packet")]
 
